@@ -119,9 +119,13 @@ type Enc struct {
 	unknownCalls  map[string]int
 	usedGlobals   []string
 	instDone      map[string]bool
-	freshApplied  map[string]bool
+	flat          *flatMap
+	flatDone      bool
+	memoCount     map[string]int // call sites per memoising function (see memoSites)
+	memoUsed      bool // a memoising (pure, fresh-result) call has been encoded
 	lockAcq       map[string]int
 	inPureInst    map[string]bool
+	renamed       map[string]bool // contract names bound through the recorded bindings (reported in the evidence)
 }
 
 type Frame struct {
@@ -148,6 +152,7 @@ type Frame struct {
 	lets     map[string]*Val // pre-state lets of the contract (usable in loop invariants)
 	curSt    *State
 	guardedVals map[ssa.Value][2]string
+	callSite ssa.Instruction // inlined frame: the call it stands for
 }
 
 type retSite struct {
@@ -165,6 +170,9 @@ type loopInfo struct {
 	phiVal   map[*ssa.Phi]*Val
 	headSt   *State
 	rangeIdx *ssa.Phi
+	idxPhi   *ssa.Phi  // for i := 0; i < bound; i++ : the counter (when the loop is not a range loop)
+	idxLenOf ssa.Value // bound is len(idxLenOf), a value defined outside the loop
+	idxBound ssa.Value // or the bound itself, defined outside the loop
 	rangeLen ssa.Value
 	mapRange *ssa.Range
 	autoFresh []*ssa.Phi
@@ -179,7 +187,7 @@ type rangeState struct {
 
 func newEnc(p *Program, unit string) *Enc {
 	return &Enc{prog: p, ctx: newCtx(p), heapSrt: map[string]string{}, unit: unit, safety: true,
-		pureDecl: map[string]bool{}, inlineDepthMax: 6, usedTrusted: map[string]string{}, usedPurePkg: map[string]bool{}, oblSeq: map[string]int{}, noInline: map[string]bool{}}
+		pureDecl: map[string]bool{}, inlineDepthMax: 6, usedTrusted: map[string]string{}, usedPurePkg: map[string]bool{}, oblSeq: map[string]int{}, noInline: map[string]bool{}, renamed: map[string]bool{}}
 }
 
 func (e *Enc) errorf(format string, a ...interface{}) {
@@ -200,6 +208,9 @@ func (e *Enc) heapInit(name, sort string, epoch int) string {
 func (e *Enc) heapGet(st *State, name, sort string) string {
 	if t, ok := st.heaps[name]; ok {
 		return t
+	}
+	if strings.HasPrefix(name, "ponce$") || name == "pshared" {
+		return e.memoHeap(st, name)
 	}
 	return e.heapInit(name, sort, st.epoch)
 }
@@ -228,11 +239,41 @@ func (e *Enc) havocAll(st *State) {
 	st.epoch = e.ctx.fresh
 	// alloc is monotone: keep it
 	al, hasAl := st.heaps["alloc"]
+	old := st.heaps
 	st.heaps = map[string]string{}
 	if hasAl {
 		st.heaps["alloc"] = al
 	}
+	// the memoisation ghost sets are the verifier's own: no callee changes them
+	for n, t := range old {
+		if n == "pshared" || strings.HasPrefix(n, "ponce$") || strings.HasPrefix(n, "pbt$") || strings.HasPrefix(n, "pba$") {
+			st.heaps[n] = t
+		}
+	}
 	e.bumpTok(st)
+}
+
+// memoHeap: the ghost sets ponce / pshared (see applyContract); empty at function entry.
+func (e *Enc) memoHeap(st *State, name string) string {
+	if t, ok := st.heaps[name]; ok {
+		return t
+	}
+	t := e.heapInit(name, "(Array Ref Bool)", st.epoch)
+	if !e.ctx.declared["ax:"+t] {
+		e.ctx.declared["ax:"+t] = true
+		e.ctx.assert("(= " + t + " ((as const (Array Ref Bool)) false))")
+	}
+	return t
+}
+
+// notShared: a new object is not among the memoised results handed out twice (those exist already).
+func (e *Enc) notShared(st *State, r string) {
+	if e.memoUsed {
+		if t := e.memoHeap(st, "pshared"); t != "pshared!0" {
+			e.ctx.assert(not(sel(t, r)))
+		}
+		e.ctx.assert(not(e.ctx.memoBorn(r)))
+	}
 }
 
 func (e *Enc) allocArr(st *State) string { return e.heapGet(st, "alloc", "(Array Ref Bool)") }
@@ -555,6 +596,9 @@ func (f *Frame) findLoops() {
 			if phi, ok := ins.(*ssa.Phi); ok && phi.Comment == "rangeindex" {
 				li.rangeIdx = phi
 			}
+		}
+		if li.rangeIdx == nil {
+			recogniseIndexLoop(li)
 		}
 		for b := range li.body {
 			for _, ins := range b.Instrs {
@@ -989,6 +1033,7 @@ func (f *Frame) topContract() *FuncContract {
 
 func (f *Frame) freshRef(st *State, r string) {
 	e := f.enc
+	e.notShared(st, r)
 	al := e.allocArr(st)
 	e.ctx.assert(fmt.Sprintf("(and (not (= %s nil)) (not (select %s %s)))", r, al, r))
 	// allocation only grows: what is new now did not exist at entry either (stated directly, so
@@ -1657,5 +1702,63 @@ func (c *Ctx) declSubstr() {
 		c.declared["ax:substr"] = true
 		c.assert("(forall ((s Str) (a (_ BitVec 64)) (b (_ BitVec 64))) (! (=> (and (bvsle #x0000000000000000 a) (bvsle a b) (bvsle b (slen s))) (= (slen (substr s a b)) (bvsub b a))) :pattern ((substr s a b))))")
 		c.assert("(forall ((s Str)) (! (= (substr s #x0000000000000000 (slen s)) s) :pattern ((substr s #x0000000000000000 (slen s)))))")
+	}
+}
+
+// recogniseIndexLoop: `for i := 0; i < bound; i++` where bound is len(x) of a value defined outside
+// the loop, or a value defined outside the loop. Such a loop gets what a range loop gets: $k (the
+// number of completed iterations, here i itself) and the checked invariant 0 <= i <= bound.
+func recogniseIndexLoop(li *loopInfo) {
+	h := li.header
+	for _, ins := range h.Instrs {
+		phi, ok := ins.(*ssa.Phi)
+		if !ok || len(phi.Edges) != 2 {
+			continue
+		}
+		if _, _, isInt := intInfo(phi.Type()); !isInt {
+			continue
+		}
+		zero, step := false, false
+		for _, e := range phi.Edges {
+			switch x := e.(type) {
+			case *ssa.Const:
+				if x.Value != nil && x.Int64() == 0 {
+					zero = true
+				}
+			case *ssa.BinOp:
+				if x.Op == token.ADD && x.X == ssa.Value(phi) {
+					if c, ok := x.Y.(*ssa.Const); ok && c.Value != nil && c.Int64() == 1 {
+						step = true
+					}
+				}
+			}
+		}
+		if !zero || !step {
+			continue
+		}
+		// the loop condition: phi < bound, tested in the header
+		for _, ins2 := range h.Instrs {
+			b, ok := ins2.(*ssa.BinOp)
+			if !ok || b.Op != token.LSS || b.X != ssa.Value(phi) {
+				continue
+			}
+			outside := func(v ssa.Value) bool {
+				vi, isInstr := v.(ssa.Instruction)
+				return !isInstr || !li.body[vi.Block()]
+			}
+			if call, ok := b.Y.(*ssa.Call); ok {
+				if bi, ok := call.Call.Value.(*ssa.Builtin); ok && bi.Name() == "len" && len(call.Call.Args) == 1 && outside(call.Call.Args[0]) {
+					li.idxPhi, li.idxLenOf = phi, call.Call.Args[0]
+					return
+				}
+			}
+			if outside(b.Y) {
+				li.idxPhi, li.idxBound = phi, b.Y
+				return
+			}
+			// bound re-read on every iteration (len(x.f), a call): $k is still i, the checked invariant is 0 <= i only
+			li.idxPhi = phi
+			return
+		}
 	}
 }
